@@ -29,6 +29,8 @@ meta['checks'] = {k[6:]: {'detected': v['exit'] == 1, 'exit': v['exit'], 'first_
 for k, v in prev.items():
     if k in meta['checks'] and not v.get('detected') and meta['checks'][k]['detected']:
         meta['checks'][k]['history'] = 'missed by the first version of the check (exit %s); detected after the check was strengthened' % v.get('exit')
+    if k in meta['checks'] and v.get('history') and 'history' not in meta['checks'][k]:
+        meta['checks'][k]['history'] = v['history']
     meta['checks'].setdefault(k, v)
 json.dump(meta, open(os.path.join(dst, 'meta.json'), 'w'), indent=1)
 print('kept as', dst)
